@@ -434,12 +434,39 @@ pub fn minimise_history(h: &History, f: &Fail) -> (History, Fail) {
     (best, fail)
 }
 
+/// A monotone, sub-additive cumulative-cost prefix that need not be the run maxima of any trace:
+/// random cumulative sums, then the sub-additive closure `c[n] = min(c[n], c[k] + c[n-k])`
+/// (which keeps the vector monotone).
+pub fn closed_prefix(rng: &mut Rng, len: usize) -> Vec<u64> {
+    let big = rng.chance(1, 3);
+    let mut c: Vec<u64> = Vec::with_capacity(len);
+    let mut sum = 0u64;
+    for _ in 0..len {
+        sum += if big { rng.range(0, 40) } else { rng.range(0, 9) };
+        c.push(sum);
+    }
+    for n in 2..=len {
+        // c[n-1] holds the cost of n jobs
+        for k in 1..n {
+            let split = c[k - 1] + c[n - k - 1];
+            if split < c[n - 1] {
+                c[n - 1] = split;
+            }
+        }
+    }
+    c
+}
+
 pub fn gen_history(rng: &mut Rng, stats: &mut [u64; 6]) -> History {
     let mut tstats = [0u64; 4];
     let n = rng.range(3, 40) as usize;
     let trace = cost_trace(rng, n, &mut tstats);
     let max_n = rng.range(1, 8) as usize;
-    let prefix: Vec<u64> = (1..=max_n.min(trace.len())).map(|k| max_run_cost(&trace, k)).collect();
+    let prefix: Vec<u64> = if rng.chance(1, 3) {
+        closed_prefix(rng, max_n)
+    } else {
+        (1..=max_n.min(trace.len())).map(|k| max_run_cost(&trace, k)).collect()
+    };
     let handles = rng.range(2, 5) as usize;
     let deferred: Vec<usize> = (1..handles).filter(|_| rng.chance(1, 3)).collect();
     let mut made: Vec<bool> = (0..handles).map(|i| !deferred.contains(&i)).collect();
@@ -610,7 +637,11 @@ fn shape_item(sh: &WcetShared, k: u64, rng: &mut Rng, acc: &mut Acc) {
             let n = rng.range(1, 40) as usize;
             let tr = cost_trace(rng, n, &mut tstats);
             let max_n = rng.range(1, 8) as usize;
-            let prefix: Vec<u64> = (1..=max_n.min(tr.len())).map(|kk| max_run_cost(&tr, kk)).collect();
+            let prefix: Vec<u64> = if rng.chance(1, 3) {
+                closed_prefix(rng, max_n)
+            } else {
+                (1..=max_n.min(tr.len())).map(|kk| max_run_cost(&tr, kk)).collect()
+            };
             if x == 2 {
                 CostDesc::Curve(prefix)
             } else {
@@ -753,7 +784,7 @@ pub fn run_c14(opt: &Options) -> i32 {
             wall,
             cov,
             &[
-                "cost prefixes used for Curve / ExtrapolatingCurve instances are exact run maxima of recorded traces (hence sub-additive and monotone)",
+                "cost prefixes used for Curve / ExtrapolatingCurve instances are well-formed: exact run maxima of recorded traces, or (one in three) the sub-additive closure of random cumulative sums; monotone but non-sub-additive vectors (a loose entry such as [5,6,12]) are treated as the 'garbage in' the constructor's documentation excludes",
                 "the clauses about zero, monotonicity, iterator sums and least_wcet are pure and ride along",
             ],
             &|r: &Report| {
